@@ -103,7 +103,7 @@ class OneCellHooks:
 
 def _contract(cls):
     return dict(
-        params=dict(self='obj:' + cls, marginals='obj:dict', metric='obj:'),
+        params=dict(self='obj:' + cls, marginals='obj:dict', metric='obj:'), uses_locals=['Q', 'x', 'y', 'noise', 'mu', 'proj', 'loss', 'cl'],
         requires=['metric is not None', 'not callable(metric)'],
         pure={'callable': 'bool', 'CliqueVector': 'obj', '.zeros': 'obj'}, division='abort',
         local_types={'loss': 'real'},
